@@ -11,6 +11,8 @@ def run(tier, seed):
     _, rep1 = netcommon.mc_and_replay(v, wd, "c01", k, False, workers=12 if tier == "quick" else 15)
     _, rep2 = netcommon.mc_and_replay(v, wd, "c04b", 2 if tier == "quick" else 3, False)
     _, rep3 = netcommon.mc_and_replay(v, wd, "c01d", 3, False)
+    # many badfilter rules at once: seven rules followed by every subset of their seven twins
+    netcommon.mc_and_replay(v, wd, "c04m", 7, False, workers=8)
     # match-all rules fused with patterned siblings (optimised engines must stay monotone), and rule addition
     # through Blocker::add_filter (histories: the rule added one at a time must have the effect it has in a batch)
     _, rep4 = netcommon.mc_and_replay(v, wd, "c05", 2, False)
@@ -25,7 +27,8 @@ def run(tier, seed):
     return v.finish("model_checking",
                     "precedence + monotonicity: all lists of <= %d rules from the 37-rule c01 pool (token-boundary cases, exceptions, "
                     "important, tags, domains, badfilter twins) and the c01d pool x tag sets x requests; badfilter: all pairs%s from 13 base "
-                    "rules and 25 badfilter twins / near-twins differing in exactly one option or pattern character" % (k, "" if tier == "quick" else "/triples"),
+                    "rules and 25 badfilter twins / near-twins differing in exactly one option or pattern character; seven rules followed by every "
+                    "subset of their seven badfilter twins" % (k, "" if tier == "quick" else "/triples"),
                     exhaustive=True)
 
 
